@@ -10,6 +10,7 @@ import Rsdns.Model.RData
 import Rsdns.Model.Reader
 import Rsdns.Model.RecordSet
 import Rsdns.Model.NameText
+import Rsdns.Model.Client
 
 namespace Rsdns.Driver
 
@@ -364,6 +365,152 @@ def answerCmp (a b : Bytes) : String :=
       s!"conv={toHex na}:{showRes toHex (toInline na)}:{showRes toHex (toHeap ia)}"
   | _, _, _, _ => "badname"
 
+/-! ### clients -/
+
+def hex4 (n : Nat) : String :=
+  String.ofList [hexDigit (n / 4096 % 16), hexDigit (n / 256 % 16), hexDigit (n / 16 % 16), hexDigit (n % 16)]
+
+/-- substitute the ID placeholders of a template, then hex-decode -/
+def parseTemplate (id prev : Nat) (t : String) : Option Bytes :=
+  let t := t.replace "IIII" (hex4 id)
+  let t := t.replace "JJJJ" (hex4 (id ^^^ 0x0100))
+  let t := t.replace "PPPP" (hex4 prev)
+  parseHex t
+
+def parseItem (id prev : Nat) (t : String) : Option Item :=
+  if t == "z" then some (.send #[])
+  else if t == "c" then some .close
+  else if t == "h" then some .hold
+  else if t.startsWith "p" then (t.drop 1).toString.toNat?.map .pause
+  else (parseTemplate id prev t).map .send
+
+def parseScript (id prev : Nat) (s : String) : Option (List (List Item)) :=
+  if s == "-" then some []
+  else (s.splitOn ";").mapM (fun e =>
+    if e == "." || e == "" then some [] else (e.splitOn ",").mapM (parseItem id prev))
+
+def kv (toks : List String) (key : String) : Option String :=
+  toks.findSome? (fun t => if t.startsWith (key ++ "=") then some (t.drop (key.length + 1)).toString else none)
+
+def showIp (a : Nat) : String := s!"{a / 16777216 % 256}.{a / 65536 % 256}.{a / 256 % 256}.{a % 256}"
+
+def showClientErr (e : Err) : String :=
+  match e with
+  | .io 0 => "IoError(UnexpectedEof)"
+  | .io 1 => "IoError(InvalidInput)"
+  | e => showErr e
+
+def splitQs (toks : List String) : List (List String) :=
+  let rec go (ts : List String) (cur : List String) (acc : List (List String)) : List (List String) :=
+    match ts with
+    | [] => (cur.reverse :: acc).reverse
+    | "|" :: rest => go rest [] (cur.reverse :: acc)
+    | t :: rest => go rest (t :: cur) acc
+  go toks [] []
+
+structure ClientState where
+  queue : List Dgram
+  prevId : Nat
+  outs : List String
+
+structure QSpec where
+  api : String
+  qname : Bytes
+  qtype : Nat
+  qclass : Nat
+  buf : Nat
+  dropAt : Option Nat
+  udp : List (List Item)
+  tcp : List (List Item)
+
+def parseQ (cfg : Cfg) (id prev : Nat) (q : List String) : Option QSpec := do
+  let api ← kv q "api"
+  let qname ← parseHex (← kv q "qname")
+  let qtype ← (← kv q "qtype").toNat?
+  let qclass ← (← kv q "qclass").toNat?
+  let buf ← (← kv q "buf").toNat?
+  let drop ← kv q "drop"
+  let dropAt : Option Nat ← if drop == "none" || !cfg.async then some none else drop.toNat?.map some
+  let udp ← parseScript id prev (← kv q "udp")
+  let tcp ← parseScript id prev (← kv q "tcp")
+  some { api, qname, qtype, qclass, buf, dropAt, udp, tcp }
+
+def zeroId (b : Bytes) (off : Nat) : Bytes :=
+  if b.size ≥ off + 2 then (b.set! off 0).set! (off + 1) 0 else b
+
+def fmtSeen (run : RawRun) : String :=
+  let udp0 := match run.msg, run.seen.udp with
+    | some m, _ :: _ => toHex (zeroId (m.extract 2 m.size) 0)
+    | _, _ => "-"
+  let tcp0 := match run.msg, run.seen.tcp with
+    | some m, _ + 1 => toHex (zeroId m 2)
+    | _, _ => "-"
+  s!"nudp={run.seen.udp.length} udp0={udp0} udpsame=1 ntcp={run.seen.tcp} tcp0={tcp0} tail=1"
+
+/-- run one query of a history: answer group, socket queue afterwards, id seen by the server (0 if none) -/
+def runQ (cfg : Cfg) (id : Nat) (queue : List Dgram) (q : QSpec) : String × List Dgram × Nat :=
+  let sent (run : RawRun) : Bool := !run.seen.udp.isEmpty || run.seen.tcp > 0
+  if q.api == "raw" then
+    let run := queryRaw cfg id q.qname q.qtype q.qclass q.buf q.udp q.tcp queue q.dropAt
+    let res : String := match run.result with
+      | .ok n b => s!"ok:{n}:{toHex b}"
+      | .err e => "err:" ++ showClientErr e
+      | .dropped => "dropped"
+    (s!"res={res} " ++ fmtSeen run, run.queue, if sent run then id else 0)
+  else
+    let (r, run) := queryRRSet cfg id q.qname q.qclass q.udp q.tcp queue q.dropAt
+    let res : String := match run.result, r with
+      | .dropped, _ => "dropped"
+      | _, .ok rs =>
+        let addrs := rs.rdata.map (fun d => match d with | .a v => showIp v | _ => "?")
+        s!"ok:rrset:{toHex rs.name}:{rs.rclass}:{rs.ttl}:" ++ String.intercalate "," addrs
+      | _, .err e => "err:" ++ showClientErr e
+      | _, .panic k => showPanic k
+      | _, .ub => "ub"
+    (s!"res={res} " ++ fmtSeen run, run.queue, if sent run then id else 0)
+
+/-- `client …` -/
+def answerClient (toks : List String) : String :=
+  let cfgToks := toks.takeWhile (fun t => !t.startsWith "api=")
+  let qToks := toks.dropWhile (fun t => !t.startsWith "api=")
+  let parsed : Option Cfg := do
+    let rt ← kv cfgToks "rt"
+    let rd ← kv cfgToks "rd"
+    let edns ← kv cfgToks "edns"
+    let strat ← kv cfgToks "strat"
+    let cfgbuf ← (← kv cfgToks "cfgbuf").toNat?
+    let qt ← kv cfgToks "qt"
+    let lt ← (← kv cfgToks "lt").toNat?
+    let ednsV : Option (Nat × Nat) ← if edns == "off" then some none else
+      match edns.splitOn ":" with
+      | [v, p] => do some (some ((← v.toNat?), (← p.toNat?)))
+      | _ => none
+    let stratN ← match strat with | "udp" => some 0 | "tcp" => some 1 | "notcp" => some 2 | _ => none
+    let qtV : Option Nat ← if qt == "none" then some none else qt.toNat?.map some
+    some { async := rt != "std", rd := rd == "1", edns := ednsV, strat := stratN, cfgbuf := cfgbuf, qt := qtV, lt := lt }
+  match parsed with
+  | none => "bad-request"
+  | some cfg =>
+    let qs := splitQs qToks
+    let failAll (e : Err) : String :=
+      String.intercalate " | " (qs.map (fun _ => s!"res=err:{showClientErr e} nudp=0 udp0=- udpsame=1 ntcp=0 tcp0=- tail=1"))
+    match cfg.check with
+    | .err e => failAll e
+    | .panic _ => "bad-request"
+    | .ub => "bad-request"
+    | .ok () =>
+      let step (st : ClientState × Nat) (q : List String) : ClientState × Nat :=
+        let (st, idx) := st
+        let id := idx + 1
+        match parseQ cfg id st.prevId q with
+        | some spec =>
+          let (line, queue, pid) := runQ cfg id st.queue spec
+          -- datagrams that had already arrived stay queued in the socket for the next query
+          ({ queue := queue.map (fun d => { d with at_ := 0 }), prevId := pid, outs := line :: st.outs }, idx + 1)
+        | none => ({ st with outs := "bad-request" :: st.outs }, idx + 1)
+      let (st, _) := qs.foldl step ({ queue := [], prevId := 0, outs := [] }, 0)
+      String.intercalate " | " st.outs.reverse
+
 /-- the public text APIs take `&str`: non-UTF-8 input cannot be expressed through them -/
 def isUtf8 (b : Bytes) : Bool := (String.fromUTF8? (ByteArray.mk b)).isSome
 
@@ -385,6 +532,7 @@ def answer (line : String) : String :=
     match parseHex ha, parseHex hb with
     | some a, some b => answerXMark a b ops
     | _, _ => "bad-request"
+  | "client" :: rest => answerClient rest
   | ["iter", hex] =>
     match parseHex hex with
     | some msg => answerIter msg
